@@ -128,8 +128,33 @@ func TestC19Registered(t *testing.T) {
 type OmitCase struct {
 	Template string       `json:"template"`
 	Flag     string       `json:"flag"`
+	Extra    []string     `json:"extra,omitempty"` // other options of the command passed with non-default values in both runs
 	Data     clit.Dataset `json:"data"`
 	Seed     int64        `json:"seed"`
+}
+
+// extraValue draws a non-default value for another option of the command (the meaning of an
+// omitted option must not depend on which other options are typed).
+func extraValue(t *rapid.T, f *pflag.Flag) string {
+	switch f.Value.Type() {
+	case "bool":
+		if f.DefValue == "true" {
+			return "--" + f.Name + "=false"
+		}
+		return "--" + f.Name
+	case "int", "int64":
+		return "--" + f.Name + "=" + rapid.SampledFrom([]string{"0", "1", "2", "3", "5", "10", "300", "400"}).Draw(t, "xint")
+	case "float64":
+		return "--" + f.Name + "=" + rapid.SampledFrom([]string{"0", "0.01", "0.1", "0.5", "1", "2", "100"}).Draw(t, "xfloat")
+	case "string":
+		switch f.Name {
+		case "metric":
+			return "--metric=" + rapid.SampledFrom([]string{"boot", "none"}).Draw(t, "xmetric")
+		case "algo":
+			return "--algo=" + rapid.SampledFrom([]string{"deltran", "downpass"}).Draw(t, "xalgo")
+		}
+	}
+	return ""
 }
 
 func templateByName(n string) (clit.Template, bool) {
@@ -153,8 +178,8 @@ func omittable(tp clit.Template) []*pflag.Flag {
 				return true
 			}
 		}
-		if f.Name == "seed" && tp.Seeded {
-			return true
+		if f.Name == "seed" {
+			return true // every run of part (b) passes --seed
 		}
 		return false
 	}
@@ -204,18 +229,20 @@ func checkOmit(c OmitCase) error {
 	if fl == nil {
 		return nil // the option is not (or no longer) omittable for this template
 	}
-	seed := int64(-1)
-	if tp.Seeded {
-		seed = c.Seed
+	seed := c.Seed // always seeded: an extra option may make the command draw random numbers
+	for _, x := range c.Extra {
+		if strings.HasPrefix(x, "--"+fl.Name+"=") || x == "--"+fl.Name {
+			return nil
+		}
 	}
-	base := clit.Run(tp, c.Data, seed, 0)
-	again := clit.Run(tp, c.Data, seed, 0)
+	base := clit.Run(tp, c.Data, seed, 0, c.Extra...)
+	again := clit.Run(tp, c.Data, seed, 0, c.Extra...)
 	if base.Diff(again) != "" {
 		return nil // not reproducible: a matter for C18, nothing can be concluded here
 	}
-	with := clit.Run(tp, c.Data, seed, 0, "--"+fl.Name+"="+fl.DefValue)
+	with := clit.Run(tp, c.Data, seed, 0, append(append([]string{}, c.Extra...), "--"+fl.Name+"="+fl.DefValue)...)
 	if d := base.Diff(with); d != "" {
-		return fmt.Errorf("%s: leaving out --%s differs from passing its documented default --%s=%s: %s", tp.Name, fl.Name, fl.Name, fl.DefValue, d)
+		return fmt.Errorf("%s %v: leaving out --%s differs from passing its documented default --%s=%s: %s", tp.Name, c.Extra, fl.Name, fl.Name, fl.DefValue, d)
 	}
 	return nil
 }
@@ -230,24 +257,32 @@ func TestC19Omitted(t *testing.T) {
 	}
 	h.Run(t, h.Spec[OmitCase]{
 		Property: "C19", Name: "omitted", Quick: 1600, Thorough: 32000, Timeout: 300e9,
-		Rule: fmt.Sprintf("%d (command template, omitted scalar option) pairs over %d templates x generated data sets x seed: the command is run without the option and with --option=<default printed by the help text> in new processes (same seed, same stdin); exit status, stdout and all written files must be identical; templates whose baseline is not reproducible are skipped; non-trivial = the baseline run exits with status 0 and produces output", len(pairs), len(clit.Templates())),
+		Rule: fmt.Sprintf("%d (command template, omitted scalar option) pairs over %d templates x generated data sets x seed: the command is run without the option and with --option=<default printed by the help text> in new processes (same seed, same stdin), in half of the cases together with 1-2 other options of the command set to non-default values in both runs; exit status, stdout and all written files must be identical; templates whose baseline is not reproducible are skipped; non-trivial = the baseline run exits with status 0 and produces output", len(pairs), len(clit.Templates())),
 		Gen: func(t *rapid.T, thorough bool) OmitCase {
 			p := pairs[rapid.IntRange(0, len(pairs)-1).Draw(t, "pair")]
-			return OmitCase{Template: p.tpl, Flag: p.flag, Data: clit.GenDataset(t), Seed: rapid.Int64Range(0, 1<<31).Draw(t, "seed")}
+			c := OmitCase{Template: p.tpl, Flag: p.flag, Data: clit.GenDataset(t), Seed: rapid.Int64Range(0, 1<<31).Draw(t, "seed")}
+			tp, _ := templateByName(p.tpl)
+			others := omittable(tp)
+			for i, n := 0, rapid.SampledFrom([]int{0, 0, 1, 1, 2}).Draw(t, "nextra"); i < n && len(others) > 1; i++ {
+				f := others[rapid.IntRange(0, len(others)-1).Draw(t, "xflag")]
+				if f.Name == p.flag || f.Name == "seed" || f.Name == "threads" || f.Name == "help" {
+					continue
+				}
+				if x := extraValue(t, f); x != "" {
+					c.Extra = append(c.Extra, x)
+				}
+			}
+			return c
 		},
 		Check: checkOmit,
 		Classify: func(c OmitCase) (bool, []string) {
 			tp, _ := templateByName(c.Template)
-			seed := int64(-1)
-			if tp.Seeded {
-				seed = c.Seed
-			}
-			o := clit.Run(tp, c.Data, seed, 0)
+			o := clit.Run(tp, c.Data, c.Seed, 0, c.Extra...)
 			size := len(o.Stdout)
 			for _, v := range o.Files {
 				size += len(v)
 			}
-			return o.Code == 0 && size > 0, []string{"flag:" + c.Flag}
+			return o.Code == 0 && size > 0, []string{"flag:" + c.Flag, fmt.Sprintf("extra-options:%d", len(c.Extra))}
 		},
 	})
 }
